@@ -46,6 +46,10 @@ CHECKS = {
    tech="TLA+ state machine JtProgram (context stack, frames, pending generators; actions call/badcall/enterctx/check/argcheck/return/raise/makegen/gennext) explored exhaustively by TLC with invariants Balanced, TopLevelEmpty, ArgsOfInnermost and action property CallerUntouched; broken pop discipline refuted; every behaviour of N actions and simulated long behaviours replayed on the code by a script interpreter; recorded executions validated by Trace_JtProgram",
    text="TLC explores every program (1.2M distinct states) over decorated calls of every flavour (new-style, old-style, typechecker=None), context blocks, manual checks, {arg} checks, return, Exception/BaseException under every catching discipline, generator creation and resumption, 3 frames deep; all 37k behaviours of 3 actions (1.2M of 4 in the thorough tier) and simulated behaviours of 12 actions are executed for real and the stack depth, axis binding and verdict after every action compared with the specification; the logged executions are additionally accepted line by line by the trace specification.",
    note="One axis name, sizes 1..2. Dataclass __init__ and methods are exercised by the C02/C13 harness, not here. Coroutines excluded (known finding D8)."),
+ "C06": dict(cat="model_checking", sec="5 C06",
+   tech="TLA+ state machine JtThreads at storage-access granularity (cells tagged with their last writer; Isolation invariant; shared-storage variant refuted by TLC); TLC enumerates all interleavings with a bounded number of preemptions of the access sequences recorded from the real workloads; each schedule replayed with real threads by a forced scheduler (sys.settrace yield points)",
+   text="For 2 and 3 threads running decorated calls, context blocks, array checks with variadics, structured PyTree checks with '?' axes, failing checks with rollback and context-free checks, TLC enumerates the interleavings of their storage accesses (plus every call into the check code as a pure preemption point) with <=1..3 preemptions; each schedule is forced on real threads and every thread must produce exactly the verdicts and print_bindings transcripts of its solo run.",
+   note="Yield points: calls into _storage.py and into _array_types.py/_pytree_type.py. Schedules are sampled down to 1200 per workload pair in the quick tier. Preemption-bounded, not all interleavings."),
 }
 NOT_YET = {}
 
